@@ -398,7 +398,7 @@ func (g *gen) setup() {
 	}
 	// cheap multi-chunk population: rows around the 16K-chunk edges, inserted through Replay
 	allKinds := g.p.name == "C07" || g.p.name == "C06"
-	if r.Intn(3) == 0 || (g.p.name == "C17" && r.Intn(3) > 0) || (g.p.wKey >= 100 && r.Intn(4) > 0) || (allKinds && r.Intn(4) > 0) {
+	if r.Intn(3) == 0 || (g.p.name == "C17" && r.Intn(3) > 0) || (g.p.wKey >= 100 && r.Intn(4) > 0) || (allKinds && r.Intn(4) > 0) || (g.p.name == "C02" && r.Intn(4) > 0) {
 		pool := []uint32{5, 63, 64, 16383, 16384, 16385, 16390, 20000, 32767, 32768, 32769, 40000}
 		var offs []string
 		for _, o := range pool {
@@ -622,6 +622,10 @@ func (g *gen) txn() {
 			fail := g.p.wFailIns > 0 && r.Intn(10) < g.p.wFailIns && (g.p.dirty || rollback)
 			line := fmt.Sprintf("p %s insert %s", tid, g.actions(r.Intn(4), g.p.dirty))
 			if fail {
+				if off, ok := g.pickLive(); ok && r.Intn(2) == 0 {
+					line = strings.TrimRight(line, " ") + fmt.Sprintf(" visit:%d", off) // the callback reads another row before it gives up
+					g.feat("failing-insert-after-visit")
+				}
 				line += " fail"
 				hadFail = true
 				g.feat("failing-insert")
@@ -864,6 +868,55 @@ func (g *gen) holes() {
 		delete(g.live, o)
 	}
 	g.feat("holes")
+}
+
+// interleavedMarkers: one transaction whose row-marker buffer holds two separate parts for the same chunk:
+// a delete in chunk c, a marker in another chunk, then an insert that re-uses a hole of chunk c
+func (g *gen) interleavedMarkers() {
+	var near, far []uint32
+	for _, o := range g.liveList() {
+		if o < 16384 {
+			near = append(near, o)
+		} else {
+			far = append(far, o)
+		}
+	}
+	if len(near) < 3 || len(far) < 1 {
+		g.holes()
+		return
+	}
+	a1, a2, b := near[g.r.Intn(len(near))], near[g.r.Intn(len(near))], far[g.r.Intn(len(far))]
+	if a1 == a2 {
+		return
+	}
+	g.nTxn++
+	t1 := fmt.Sprintf("m%d", g.nTxn)
+	g.emit("p begin " + t1)
+	g.emit(fmt.Sprintf("p %s del %d", t1, a1)) // the hole
+	g.emit("p commit " + t1)
+	delete(g.live, a1)
+	g.nTxn++
+	t2 := fmt.Sprintf("m%d", g.nTxn)
+	g.txnRes, g.txnSet = map[string]bool{}, map[string]bool{}
+	g.emit("p begin " + t2)
+	g.emit(fmt.Sprintf("p %s del %d", t2, a2))
+	if g.r.Intn(2) == 0 {
+		g.emit(fmt.Sprintf("p %s del %d", t2, b))
+		delete(g.live, b)
+	} else {
+		g.emit(strings.TrimRight(fmt.Sprintf("p %s at %d %s", t2, b, g.actionsAt(b, 1)), " "))
+		g.emit(fmt.Sprintf("p %s del %d", t2, far[0]))
+		delete(g.live, far[0])
+	}
+	if g.keyCol != "" {
+		g.emit(strings.TrimRight(fmt.Sprintf("p %s upskey %s %s", t2, hexOf([]byte(fmt.Sprintf("im%d", g.nTxn))), g.actions(1, false)), " "))
+	} else {
+		g.emit(strings.TrimRight(fmt.Sprintf("p %s insert %s", t2, g.actions(g.r.Intn(2), false)), " "))
+	}
+	g.emit("p commit " + t2)
+	delete(g.live, a2)
+	g.syncLive(g.emit("p dump"))
+	g.feat("interleaved-marker-parts")
 }
 
 // filteredDelete: DeleteAll over a filtered selection, after reading an aggregate in the same transaction
@@ -1151,9 +1204,12 @@ func genStoreCase(r *rand.Rand, p profile, rep *Report, id int) Case {
 				g.dumpAll()
 			}
 		case x < 24:
-			if r.Intn(3) == 0 {
+			switch r.Intn(3) {
+			case 0:
 				g.filteredDelete()
-			} else {
+			case 1:
+				g.interleavedMarkers()
+			default:
 				g.holes()
 			}
 		case x < 27:
@@ -1231,6 +1287,9 @@ func runStore(rep *Report, replay string) {
 		}
 		if p.wKey >= 100 {
 			n *= 5 // keyed histories are short (no bulk steps): more of them for the same cost
+		}
+		if p.name == "C02" {
+			n *= 3 // short histories as well
 		}
 		if v := envInt("VERIF_CASES"); v > 0 {
 			n = v
